@@ -206,7 +206,7 @@ def panic_site(x):
 
 
 def run(ctx):
-    ok, why = ctx.proof_stage("Props.C28", ["wf_answer_applies", "wf_answer_universes", "canon_closed", "canon_query_wf"], extra_targets=["Infer/Exec.vo"])
+    ok, why = ctx.proof_stage("Props.C28", ["wf_answer_applies", "wf_answer_universes", "canon_closed", "canon_query_wf", "rec_answer_wf", "slg_merge_wf", "slg_answer_wf", "slg_solution_wf"], extra_targets=["Infer/Exec.vo"])
     core.build_harness(bins=["canon"])
     r = ctx.rng
     k_multi = 6
